@@ -11,8 +11,12 @@ namespace Nomt.BranchUpd
 open Nomt.BitOps Nomt.LeafUpd
 
 /-- `prefix_len`, `separator_len` on the 32-byte forms -/
+def ctzGo : Nat → Nat → Nat → Nat
+  | 0, _, c => c
+  | f + 1, k, c => if k % 2 = 1 then c else ctzGo f (k / 2) (c + 1)
+
 def kfReal : KF where
-  pl := fun a b => prefixLen (bytes32 a) (bytes32 b)
-  sl := fun k => separatorLen (bytes32 k)
+  pl := fun a b => if a = b then 256 else 255 - Nat.log2 (a ^^^ b)
+  sl := fun k => if k = 0 then 1 else 256 - ctzGo 256 k 0
 
 end Nomt.BranchUpd
